@@ -172,14 +172,15 @@ func vrtJNum(name string, forms int) json.Number {
 }
 
 func vrtSpec(a, o, s int, keys string, strMode int, numForms int, flags int) {}
-func vrtNumRange(lo, hi int)                                               {}
-func vrtStrAlphabet(alts string)                                           {}
-func vrtMonitor(on bool)                                                   {}
-func vrtMaxAlloc(n int)                                                    {}
-func vrtBudget(n int)                                                      {}
-func vrtReach(tag string)                                                  {}
-func vrtSteps() int                                                        { return 0 }
-func vrtSymbolic() bool                                                    { return false }
+func vrtNested(maxLen int)                                                   {}
+func vrtNumRange(lo, hi int)                                                 {}
+func vrtStrAlphabet(alts string)                                             {}
+func vrtMonitor(on bool)                                                     {}
+func vrtMaxAlloc(n int)                                                      {}
+func vrtBudget(n int)                                                        {}
+func vrtReach(tag string)                                                    {}
+func vrtSteps() int                                                          { return 0 }
+func vrtSymbolic() bool                                                      { return false }
 func vrtTier() int {
 	if os.Getenv("VERIF_TIER") == "thorough" {
 		return 1
@@ -193,11 +194,11 @@ func vrtKnown(id string, inRegion bool) bool { return inRegion }
 func vrtNote(msg string) { vrtS.notes = append(vrtS.notes, msg) }
 
 type vrtTree struct {
-	T     string    `json:"t"`
-	V     any       `json:"v"`
-	K     any       `json:"k"`
-	X     string    `json:"x"`
-	Spare bool      `json:"spare"`
+	T     string `json:"t"`
+	V     any    `json:"v"`
+	K     any    `json:"k"`
+	X     string `json:"x"`
+	Spare bool   `json:"spare"`
 	raw   []byte
 }
 
